@@ -14,12 +14,9 @@ from symrun.rope import SymRope, Blob, blob_bytes
 import z3
 
 
-class NoiseInvalidMessage(Exception):
-    pass
-
-
-class NoiseHandshakeError(Exception):
-    pass
+# the repo's own exception classes (its fallback definitions when `noise` is not importable), so that the
+# code under test catches exactly what the stub raises without any patching
+from wormhole._dilation._noise import NoiseInvalidMessage, NoiseHandshakeError  # noqa: E402
 
 
 class World:
